@@ -30,18 +30,22 @@ CHECK_DEADLOCK FALSE
 ATTEST_CFG = "SPECIFICATION Spec\nINVARIANTS TypeOK NothingCreatedOnUsageError CreatedOnlyForFile ExportCase\nCHECK_DEADLOCK FALSE\n"
 
 
-def _attest_note(prop, tier):
-    """spec/AttestTool.tla: tools/attest, the command line around client.GetRawQuote / GetQuote. Not one of the listed properties: a
-    divergence is reported as a NOTE and recorded in the evidence; nothing that happens here changes the verdict or the exit status of C15."""
+EXTEND_CFG = "SPECIFICATION Spec\nINVARIANTS TypeOK QuietSaysNothingOfItsOwn FailureIsSaid NoSuccessWithoutTsm ExportCase\nCHECK_DEADLOCK FALSE\n"
+
+
+def _tool_note(prop, tier, name, pkg, cfg):
+    """spec/AttestTool.tla, spec/ExtendTool.tla: the guest-side command lines around the client and rtmr calls. Not among the listed
+    properties: a divergence is reported as a NOTE and recorded in the evidence; nothing that happens here changes the verdict or the exit
+    status of the check it runs in."""
     try:
-        wd = C.scratch("verif-attest-")
+        wd = C.scratch("verif-%s-" % name.lower())
         binary = C.build_harness()
-        tool = _os.path.join(C.BUILD, "attest-tool")
-        p = _sp.run(["go", "build", "-buildvcs=false", "-o", tool, "./tools/attest"], cwd=C.REPO, env=C.GOENV, capture_output=True, text=True)
+        tool = _os.path.join(C.BUILD, name.lower())
+        p = _sp.run(["go", "build", "-buildvcs=false", "-o", tool, "./" + pkg], cwd=C.REPO, env=C.GOENV, capture_output=True, text=True)
         if p.returncode != 0:
-            raise C.Infra("tools/attest does not build: " + (p.stdout + p.stderr)[-300:])
-        r = C.run_tlc("AttestTool_MC", ATTEST_CFG, workers=1, timeout=600, want_cases=True, heap="2g")
-        C.tlc_must_pass(r, "AttestTool model check")
+            raise C.Infra("%s does not build: %s" % (pkg, (p.stdout + p.stderr)[-300:]))
+        r = C.run_tlc(name + "_MC", cfg, workers=1, timeout=600, want_cases=True, heap="2g")
+        C.tlc_must_pass(r, name + " model check")
         cases = r.cases
         for i, c in enumerate(cases):
             c["id"] = i + 1
@@ -50,22 +54,33 @@ def _attest_note(prop, tier):
             for c in cases:
                 f.write(_json.dumps(c) + "\n")
         trace = _os.path.join(wd, "trace.ndjson")
-        summ = C.run_harness(binary, "attesttool", cp, trace, _os.path.join(wd, "s.json"), tier, extra=["-arg", tool])
-        vr = smallfam.validate("AttestTool_Trace", "TSpec", trace, "", wd)
-        out = dict(states=r.distinct, cases=len(cases), runs=summ["runs"], counts=summ["counts"], conforms=bool(vr.ok))
+        summ = C.run_harness(binary, name.lower(), cp, trace, _os.path.join(wd, "s.json"), tier, extra=["-arg", tool])
+        out = dict(states=r.distinct, cases=len(cases), runs=summ["runs"], counts=summ["counts"])
+        if summ.get("notes"):
+            out["notes"] = summ["notes"]
+        if not summ["runs"]:
+            C.log("NOTE [%s] %s: %s" % (prop, name, "; ".join(summ.get("notes") or ["no runs"])))
+            out["conforms"] = None
+            return out
+        vr = smallfam.validate(name + "_Trace", "TSpec", trace, "", wd)
+        out["conforms"] = bool(vr.ok)
         if vr.ok:
-            C.log("[%s] AttestTool (tools/attest around the same client calls): %d states, %d command lines on the real binary, all conform" % (prop, r.distinct, len(cases)))
+            C.log("[%s] %s (%s): %d states, %d command lines on the real binary, all conform" % (prop, name, pkg, r.distinct, len(cases)))
         elif vr.postcondition_false:
             idx = smallfam.unconsumed_index(vr)
             evs, j, k = smallfam.call_block(trace, idx)
             out["first_divergence"] = evs
-            C.log("NOTE [%s] model drift (not a property verdict): AttestTool diverges from tools/attest at %s" % (prop, _json.dumps(evs)[:400]))
+            C.log("NOTE [%s] model drift (not a property verdict): %s diverges from %s at %s" % (prop, name, pkg, _json.dumps(evs)[:400]))
         else:
             raise C.Infra("trace validation failed: " + vr.out[-600:])
         return out
     except Exception as e:  # noqa: BLE001 -- a side part: never the verdict, never the exit status
-        C.log("NOTE [%s] AttestTool part not completed (not a property verdict): %s" % (prop, str(e)[:400]))
+        C.log("NOTE [%s] %s part not completed (not a property verdict): %s" % (prop, name, str(e)[:400]))
         return dict(conforms=None, not_completed=str(e)[:400])
+
+
+def _attest_note(prop, tier):
+    return _tool_note(prop, tier, "AttestTool", "tools/attest", ATTEST_CFG)
 
 
 def _c15(prop, tier):
@@ -142,7 +157,8 @@ def _c17(prop, tier):
                               trace_consts=RTMR_TRACE_CONSTS, key_fn=_key_generic, mc_workers=1, case_fn=_c17_cases,
                               required_actions=("Validate", "ReadDir", "ReadIndex", "NoneBound", "MkdirTemp", "WriteIndex", "WriteDigest"),
                               assumptions=["the in-memory configfsi.Client stands for configfs-tsm: an entry is bound by writing its index attribute and extended by writing digest",
-                                           "go-configfs-tsm v0.3.2 (pinned dependency) performs the TSM sub-steps"])
+                                           "go-configfs-tsm v0.3.2 (pinned dependency) performs the TSM sub-steps"],
+                              extra_cov=lambda summ: {"guest_tool_specification_ExtendTool": _tool_note(prop, tier, "ExtendTool", "tools/extend", EXTEND_CFG)})
     return code
 
 
